@@ -87,7 +87,31 @@ fn normalize_key(path: &str) -> &str {
 #[must_use]
 pub fn baseline_key(path: &Path) -> String {
     let spelled = path.to_string_lossy().replace('\\', "/");
-    normalize_key(&spelled).to_string()
+    let key = normalize_key(&spelled);
+    // A run started below the project root walks paths relative to its working directory, but
+    // the baseline belongs to the project: `a.rs` seen from `src/` is the project's `src/a.rs`,
+    // not the `a.rs` next to the configuration file.
+    let below_root = working_directory_below_root();
+    if below_root.is_empty() || path.is_absolute() {
+        key.to_string()
+    } else if key == "." {
+        below_root
+    } else {
+        format!("{below_root}/{key}")
+    }
+}
+
+/// The working directory relative to the project root (empty when the run starts at the root,
+/// or when no root is found above it).
+fn working_directory_below_root() -> String {
+    let Ok(cwd) = std::env::current_dir() else {
+        return String::new();
+    };
+    let cwd = dunce::canonicalize(&cwd).unwrap_or(cwd);
+    let root = crate::state::discover_project_root(&cwd);
+    cwd.strip_prefix(&root)
+        .map(|p| p.to_string_lossy().replace('\\', "/"))
+        .unwrap_or_default()
 }
 
 impl Baseline {
